@@ -12,7 +12,9 @@ RULE = ("cases = a generated class hierarchy (base with 2-4 named constraint blo
         "k; 0-2 derived levels overriding subsets of the block names and adding blocks), a population of instances of the "
         "different levels (top-level, nested in a holder via rand_attr, elements of a holder's object list) and a history "
         "of constraint_mode(on/off) toggles on (instance, block) pairs interleaved with randomize calls and with creation "
-        "of further instances.  Model: per instance {block name -> enabled}; enforced statements = the most-derived "
+        "of further instances; in ~45% of the cases the base class also has a random list q (2-bit elements) that blocks "
+        "of every level constrain through foreach, and the history appends to q of single instances (also while blocks of "
+        "that instance are off).  Model: per instance {block name -> enabled}; enforced statements = the most-derived "
         "definition of every enabled name.  Oracle: the free draw lies in the enumerated S_ref(enforced) of that very "
         "instance (SolveFailure iff empty); pinned probe pairs per block B: an assignment violating only B is accepted iff "
         "B is off for that instance - run on the toggled instance and on every other one.  non-trivial = >=2 toggles on >=2 "
@@ -27,6 +29,9 @@ FIELDS = [
     {"name": "b", "kind": "int", "w": 3, "signed": True, "rand": True, "init": 0},
     {"name": "k", "kind": "bit", "w": 2, "signed": False, "rand": False, "init": 1},
 ]
+
+QELEM = {"kind": "bit", "w": 2, "signed": False}
+QMAX = 3
 
 HOLDER_SRC = '''
 @vsc.randobj
@@ -55,6 +60,17 @@ def cases(d):
         if d.chance(40):
             blocks.append({"name": "x%d" % lvl, "stmts": [g.field_stmt(0)]})
         classes.append(dict({"name": "L%d" % lvl, "base": "L%d" % (lvl - 1), "fields": [], "blocks": blocks}, **CTOR))
+    # some hierarchies carry a random list q whose elements the blocks constrain through foreach; the history then
+    # also grows q (the per-call expansion of a foreach must follow the list even while its block is switched off)
+    with_q = d.chance(45)
+    if with_q:
+        classes[0]["lists"] = [{"name": "q", "elem": dict(QELEM), "mode": "fixed", "size": d.randint(1, 2)}]
+        for c in classes:
+            for b in c["blocks"]:
+                if d.chance(45):
+                    rhs = ["lit", d.randint(0, 3)] if d.chance(60) else ["f", d.choice(["a", "k"])]
+                    b["stmts"].append(["foreach", "q", "i", None,
+                                       [["expr", ["bin", d.choice(["<", "<=", "!=", ">", ">=", "=="]), ["el", "q", ["iv", "i"], None], rhs]]]])
     nlev = len(classes)
     ops = []
     # population: instance = ["new", level, place] place: top | nested | elem
@@ -71,6 +87,8 @@ def cases(d):
         if ninst < 5 and r < 22:
             ops.append(new_op())
             ninst += 1
+        elif with_q and r < 32:
+            ops.append(["qapp", d.randint(0, ninst - 1), d.randint(0, 3)])
         elif r < 55:
             ops.append(["mode", d.randint(0, ninst - 1), d.randint(0, 5), d.randint(0, 1)])
         else:
@@ -108,9 +126,32 @@ def run_case(case):
     vsc = import_vsc()
     classes = case["classes"]
     prog = {"enums": {}, "classes": classes}
-    types = {f["name"]: f for f in FIELDS}
-    rf = [f for f in FIELDS if f["rand"]]
-    names = [f["name"] for f in rf]
+    qspec = (classes[0].get("lists") or [None])[0]
+    if qspec is not None and (qspec.get("name") != "q" or qspec.get("mode") != "fixed" or qspec.get("elem") != QELEM
+                              or not 1 <= qspec.get("size", 0) <= 2):
+        return [], {"toggles": 0, "toggled_insts": set(), "created_after_toggle": False, "probes": 0}
+    if not all(sem.well_formed(st_) for c in classes for b in c["blocks"] for st_ in b["stmts"]):
+        return [], {"toggles": 0, "toggled_insts": set(), "created_after_toggle": False, "probes": 0}
+
+    def space(it_):
+        """-> (types, random fields, their names, constants) of one instance: a, b and the current elements of q"""
+        types_ = {f["name"]: f for f in FIELDS}
+        rf_ = [f for f in FIELDS if f["rand"]]
+        env_ = {"a": 0, "b": 0, "k": it_.k}
+        if qspec is not None:
+            types_["q[]"] = QELEM
+            env_["#q"] = it_.qn
+            for j in range(it_.qn):
+                f = dict(QELEM, name="q[%d]" % j, rand=True, init=0)
+                types_[f["name"]] = f
+                rf_.append(f)
+        return types_, rf_, [f["name"] for f in rf_], env_
+
+    def read(it_):
+        got = [int(it_.obj.a), int(it_.obj.b)]
+        if qspec is not None:
+            got += [int(x) for x in it_.obj.q]
+        return tuple(got)
     info = {"toggles": 0, "toggled_insts": set(), "created_after_toggle": False, "probes": 0}
     if any(not b["stmts"] for c in classes for b in c["blocks"]) or [f["name"] for f in classes[0]["fields"]] != ["a", "b", "k"]:
         return [], info
@@ -144,6 +185,7 @@ def run_case(case):
             # the holder's default nested object takes part in h.randomize() too: model it as an implicit instance
             imp = Inst()
             imp.level, imp.place, imp.k = 0, "nested", 0
+            imp.qn = qspec["size"] if qspec else 0
             imp.blocks = effective_blocks(classes, 0)
             imp.enabled = {n: True for n in imp.blocks}
             imp.off = ()
@@ -173,6 +215,7 @@ def run_case(case):
             if op[0] == "new":
                 it = Inst()
                 it.level, it.place, it.k = op[1], op[2], op[3]
+                it.qn = qspec["size"] if qspec else 0
                 it.blocks = effective_blocks(classes, it.level)
                 it.enabled = {n: True for n in it.blocks}
                 bl = list(it.blocks)
@@ -196,6 +239,14 @@ def run_case(case):
             it = insts[op[1]]
             if it.obj is None:
                 flush()
+            if op[0] == "qapp":
+                if qspec is not None and it.qn < QMAX:
+                    it.obj.q.append(op[2] % 4)
+                    it.qn += 1
+                    info["qapps"] = info.get("qapps", 0) + 1
+                    if not all(it.enabled.values()):
+                        info["qapp_while_off"] = True
+                continue
             if op[0] == "mode":
                 bnames = list(it.blocks)
                 bn = bnames[op[2] % len(bnames)]
@@ -221,8 +272,8 @@ def run_case(case):
             sets = {}
             for g_i in group:
                 enforced = [s for n, ss in g_i.blocks.items() if g_i.enabled[n] for s in ss]
-                env0 = {"a": 0, "b": 0, "k": g_i.k}
-                sets[id(g_i)] = flat.enumerate_solutions(types, rf, env0, enforced)
+                types_g, rf_g, _, env0 = space(g_i)
+                sets[id(g_i)] = flat.enumerate_solutions(types_g, rf_g, env0, enforced)
             any_empty = any(not sets[id(g_i)][1] for g_i in group)
             if st == "sf":
                 if not any_empty:
@@ -231,20 +282,26 @@ def run_case(case):
                 if any_empty:
                     return [V("returned_on_unsat", "randomize", case, where)], info
                 for g_i in group:
-                    got = (int(g_i.obj.a), int(g_i.obj.b))
+                    got = read(g_i)
+                    if len(got) != 2 + g_i.qn:
+                        return [V("list_length_changed", "q", case, where)], info
                     if int(g_i.obj.k) != g_i.k:
                         return [V("nonrandom_changed", "k", case, where)], info
                     if got not in set(sets[id(g_i)][1]):
                         en = {n: g_i.enabled[n] for n in g_i.blocks}
                         return [V("wrong_blocks_enforced", "result violates the enabled most-derived blocks of this instance", case,
-                                  where + ": instance #%d (level %d, %s, k=%d, enabled %s) got a=%d b=%d"
-                                  % ((insts + implicit).index(g_i), g_i.level, g_i.place, g_i.k, cjson(en), got[0], got[1]))], info
+                                  where + ": instance #%d (level %d, %s, k=%d, enabled %s) got a=%d b=%d q=%s"
+                                  % ((insts + implicit).index(g_i), g_i.level, g_i.place, g_i.k, cjson(en), got[0], got[1], list(got[2:])))], info
             # ---- pinned probe pairs, on this instance and on every other live top-level instance
             for o_i in [x for x in insts + implicit if x.obj is not None]:
-                allv, _ = flat.enumerate_solutions(types, rf, {"a": 0, "b": 0, "k": o_i.k}, [])
+                if qspec is not None and o_i.holder is not None and o_i.path.startswith("arr"):
+                    # a pin would have to name h.arr[j].q[i]: subscripting a list reached through an object-list element is
+                    # not supported in constraints (explicit NotImplementedError); these instances are judged by free draws
+                    continue
+                types, rf, names, env = space(o_i)
+                allv, _ = flat.enumerate_solutions(types, rf, env, [])
                 bnames = list(o_i.blocks)
                 bn = bnames[sel % len(bnames)]
-                env = {"k": o_i.k}
                 c = sem.Ctx(types, env)
                 wit = []
                 for vals in allv:
@@ -263,7 +320,7 @@ def run_case(case):
                 # other members of a holder must be satisfiable for the probe to be meaningful
                 if o_i.holder is not None:
                     grp = [g2 for h, n, elems in holders if h is o_i.holder for g2 in ([n] if n else []) + elems if g2 is not o_i]
-                    if any(not flat.enumerate_solutions(types, rf, {"a": 0, "b": 0, "k": g2.k},
+                    if any(not flat.enumerate_solutions(space(g2)[0], space(g2)[1], space(g2)[3],
                                                         [s for n2, ss in g2.blocks.items() if g2.enabled[n2] for s in ss])[1] for g2 in grp):
                         continue
                 st2, exc2 = flat.do_call(ns, tgt, "randomize_with", pins, seed + 1)
@@ -289,6 +346,10 @@ def body(case, acc):
     acc.label("probes", info["probes"])
     acc.label("constructor-time toggles", info.get("ctor_toggles", 0))
     acc.label("levels:%d" % len(case["classes"]))
+    if case["classes"][0].get("lists"):
+        acc.label("blocks with foreach over a list")
+    if info.get("qapp_while_off"):
+        acc.label("list grown while a block of the instance is off")
     for op in case["ops"]:
         acc.label("op:" + op[0] + (":" + op[2] if op[0] == "new" else ""))
     return vios
